@@ -297,12 +297,17 @@ Definition p_date_filter : parser unit :=
   r <- ask o ODate v ;;
   guard (r =? 1) FPlain.
 
+(* while match: inverse = not inverse; buf = buf[match.end(0):]; match = NOT-pattern
+   (463764a: NOT may be repeated) *)
+Definition not_step (_ : unit) : parser (unit + unit) :=
+  try_ (lex lex_not ;;; ret (inl tt)) (fun _ => ret (inr tt)).
+
 Fixpoint p_search_key (d : nat) (pr : params) : parser unit :=
   match d with
   | O => raise XRecursion
   | S d' =>
     p_opt_space ;;;
-    try_ (lex lex_not) (fun _ => ret tt) ;;;
+    loop F not_step tt ;;;
     isseq <- try_ (p_seqset ;;; ret true) (fun _ => ret false) ;;
     if isseq then ret tt else
     islist <- try_ (p_list None (p_expected [p_search_key d' pr]) ;;; ret true)
